@@ -68,6 +68,20 @@ def gen_host(rng):
     return rng.choice(HOSTS_ODD)
 
 
+def long_host(rng, n):
+    """a host name of about n bytes made of DNS labels (or a long run of hex groups)"""
+    if rng.random() < 0.25:
+        h = ":".join("%x" % rng.randrange(65536) for _ in range(n // 5 + 1))
+        return h[:n].rstrip(":").encode() or b"a"
+    labels = []
+    total = 0
+    while total < n:
+        l = gen_name(rng, 1, 63).lower()
+        labels.append(l)
+        total += len(l) + 1
+    return ".".join(labels)[:n].rstrip(".-_").encode() or b"a"
+
+
 def gen_port(rng):
     if rng.random() < 0.85:
         return rng.choice([0, 1, 80, 443, 3322, 9000, 65535, rng.randrange(65536)])
@@ -96,6 +110,16 @@ def gen_addr(ctx, depth=0):
         name = rng.choice(["", " ", "-a", "a/b", "a:b", "a@b", "a b", "\u00e9t\u00e9", "a\n", ".a", "_x", "a" + "\u2003"])
     system = gen_name(rng, 1, 12) if rng.random() < 0.93 else rng.choice(["", "-s", "s/1", "s@x", " s", "s ", "s:1", "\u212a"])
     host = gen_host(rng)
+    # maximal-length components: Validate bounds only the actor name (255 bytes); system and host are unbounded
+    r = rng.random()
+    if r < 0.05:
+        system = gen_name(rng, 200, 2000)
+    elif r < 0.10:
+        host = long_host(rng, rng.choice([253, 300, 600, 1500]))
+    elif r < 0.13:
+        name = gen_name(rng, 255, 255)
+        system = gen_name(rng, 256, 700)
+        host = long_host(rng, rng.choice([253, 500]))
     port = gen_port(rng)
     a = {"Name": b64(name), "System": b64(system), "Host": b64(host), "Port": port, "Parent": None, "NoSender": False}
     r = rng.random()
@@ -107,7 +131,7 @@ def gen_addr(ctx, depth=0):
             p["System"] = b64(sysb.swapcase() if rng.random() < 0.3 else sysb)
             p["Host"], p["Port"] = a["Host"], a["Port"]
             if rng.random() < 0.9:
-                p["Name"] = b64(gen_name(rng, 1, 16))
+                p["Name"] = b64(gen_name(rng, 1, 16) if rng.random() < 0.85 else gen_name(rng, 255, 255))
         elif q < 0.8:
             p = dict(a, Parent=None)  # same name as the child: invalid
         a["Parent"] = p
@@ -129,6 +153,11 @@ def corpus_addrs():
         A("", "", "", 0),                                       # equal to NoSender
         A("", "", "", 0, A("p", "s", "h", 1)),                  # the sentinel given a parent (degenerate)
         A("n", "s", "a/b", 80), A("n", "s", "a@b", 80), A("n", "s", "[abc]", 80), A("n", "s", " host", 80), A("n", "s", "[::1]", 80),
+        # maximal lengths: 255-byte name under a 255-byte parent (541 bytes), and with long system / host
+        A("c" * 255, "s", "h", 1, A("p" * 255, "s", "h", 1)),
+        A("N" + "a-_." * 63 + "zz", "S" * 300, ".".join(["l" * 63] * 3 + ["m" * 61]), 65535),
+        A("x" * 255, "Sys-" + "t" * 4000, ".".join(["node%d" % i for i in range(260)]), 9000, A("y" * 255, "sys-" + "T" * 4000, ".".join(["node%d" % i for i in range(260)]), 9000)),
+        A("k" * 255, "s" * 600, ":".join(["ffff"] * 200), 65535, A("q" * 255, "s" * 600, ":".join(["ffff"] * 200), 65535)),
     ]
 
 
@@ -142,7 +171,19 @@ def gen_strings(ctx, valid_strings):
              "http://s@h:1/n", "://s@h:1/n", "goakt://s@h:1/n://", "goakt://s@h:00080/n", "goakt://s@h:+/n", "goakt://s@h:-/n", "@", "/", ":", "@/", "@:/",
              "x@/", "x@y/z", "@h:1", "a@b:c/d/e/f"]
     out = [s.encode() for s in fixed]
+    # long inputs for the no-panic / accept-reject stream
+    out += [b"goakt://" + b"s" * 5000 + b"@" + b"h" * 3000 + b":1/" + b"p" * 2000 + b"/" + b"n" * 2000,
+            b"goakt://s@h:" + b"9" * 600 + b"/n", b"goakt://s@h:" + b"0" * 600 + b"7/n", b"goakt://s@" + b":" * 3000 + b"1/n",
+            b"goakt://s@h:1/" + b"/" * 3000, b"goakt://" + b"@" * 2000, b"goakt" + b"://" * 1500, b"goakt://s@h:1/" + b"a/" * 1200,
+            b"x" * 513, b"goakt://s@h:1/" + b"n" * 498, b"goakt://s@h:1/" + b"n" * 499, b"goakt://s@h:1/" + b"n" * 1010, b"goakt://s@h:1/" + b"n" * 4082, b"goakt://s@h:1/" + b"n" * 65522]
+    longs = sorted(valid_strings, key=len)[-6:]
     alphabet = list(b":/@[]%+-_. 0a9Z\n\t\x00\xff\xc2\x85")
+    for base in longs:
+        for _ in range(6 if ctx.thorough else 3):
+            s = bytearray(base)
+            pos = rng.randrange(len(s) + 1)
+            s.insert(pos, rng.choice(alphabet))
+            out.append(bytes(s))
     n_mut = 1500 if ctx.thorough else 250
     for _ in range(n_mut):
         s = bytearray(rng.choice(valid_strings))
@@ -286,8 +327,11 @@ def run(ctx):
         ctx.tie_broken("C26/Model.v does not compile", gen_out)
     elif aouts:
         aterms = []
+        coq_max = 9000 if ctx.thorough else 800  # bytes; longer cases are checked by the oracle on the real code only
         for a, o in zip(addrs, aouts):
             if o["Parsed"].get("Panic") or o.get("HPOfPanic"):
+                continue
+            if len(unb(o["Str"])) > coq_max:
                 continue
             ca = coq_addr(a)[len("(Some "):-1]
             aterms.append("(%s, %s, %s, %s, %s)" % (ca, zl(unb(o["Str"])), "true" if o["Valid"] else "false", coq_obs(o["Parsed"]),
@@ -296,6 +340,8 @@ def run(ctx):
         for s, o in zip(strs, souts):
             if o["Parsed"].get("Panic") or o.get("HPOfPanic"):
                 continue
+            if len(s) > coq_max:
+                continue  # very long inputs stay in the no-panic stream only (cost; a 64 KiB list literal overflows coqc's stack)
             sterms.append("(%s, %s, %s)" % (zl(s), coq_obs(o["Parsed"]), "Some " + zl(unb(o["HPOf"])) if o["HPOfOK"] else "None"))
         body = """From Coq Require Import ZArith List Bool. Import ListNotations.
 From GV Require Import C26.Model.
@@ -354,12 +400,15 @@ Eval vm_compute in summary.
     ctx.coverage.update({
         "evaluations": len(aouts) + len(souts),
         "distinct_nontrivial": len(nontrivial),
-        "rule": "addresses: names from the pattern grammar (1..24, 255, 256 bytes; 15% padded with ASCII/Unicode white space; 4% malformed), systems likewise, hosts: 35% fixed host-name/IPv4/IPv6(+zone) list, "
+        "rule": "addresses: maximal-length components (255-byte name under a 255-byte parent, systems of 200..4000 bytes, host names / hex-group hosts of 253..1500 bytes; strings up to 64 KiB in the no-panic stream); names from the pattern grammar (1..24, 255, 256 bytes; 15% padded with ASCII/Unicode white space; 4% malformed), systems likewise, hosts: 35% fixed host-name/IPv4/IPv6(+zone) list, "
                 "random host names, random IPv6 groups with '::' and zones, random IPv4, 28% odd hosts (brackets, white space, '/', '@', invalid UTF-8); ports 0..65535 and out of range; 45% with a parent (fitting, case-swapped system, "
                 "conflicting, same name), 5% NoSender parent, grandparents; strings: fixed malformed table, 1-3 byte mutations of accepted strings, random byte strings. "
                 "non-trivial = accepted by the real Validate and inside the theorem's domain (distinct by fields) or a string Parse accepts (distinct by bytes)",
         "samples": [show(a, o) for a, o in list(zip(addrs, aouts))[:3] + list(zip(addrs, aouts))[20:23]] + [s.decode("utf8", "replace") for s in strs[60:64]],
         "stats": stats, "model_vs_impl": mism,
+        "longest_accepted_address_string_bytes": max([len(unb(o["Str"])) for o in aouts if o["Valid"]] or [0]),
+        "accepted_address_strings_over_512_bytes": sum(1 for o in aouts if o["Valid"] and len(unb(o["Str"])) > 512),
+        "longest_string_parsed_bytes": max([len(x) for x in strs] or [0]),
         "theorems": ["C26_parse_restores_address", "C26_parse_restores_address_general", "C26_hostport_extracted", "C26_host_classes",
                      "C26_string_identifies_address", "C26_parse_slices_in_bounds", "C26_ipv6_witness"],
     })
